@@ -1283,7 +1283,7 @@ void eval_instruction (const char *p) {
               if (sp->type == T_STRING)
                 {
                   SVALUE_STRING_JOIN (lval, sp, "f_add_eq: 1");
-                  opt_trace (TT_EVAL|3, "f_add_eq: \"%s\"", sp->u.string);
+                  opt_trace (TT_EVAL|3, "f_add_eq: \"%s\"", lval->u.string);
                 }
               else if (sp->type == T_NUMBER)
                 {
